@@ -447,6 +447,17 @@ theorem tensor_penalty_psd_2d (m1 m2 ord : ℕ) (la lb : ℚ) (ha : 0 ≤ la) (h
     (fun u => by rw [quadForm_penMat]; exact Finset.sum_nonneg fun r _ => sq_nonneg _)
     (fun u => by rw [quadForm_penMat]; exact Finset.sum_nonneg fun r _ => sq_nonneg _) v
 
+/-- The 3-D tensor-product penalty is positive semi-definite, so `C05.leverage_bounds` /
+`C05.hat_bounds` apply to 3-D fits as well. -/
+theorem tensor_penalty_psd_3d (m1 m2 m3 ord : ℕ) (hm3 : 0 < m3) (la lb lc : ℚ)
+    (ha : 0 ≤ la) (hb : 0 ≤ lb) (hc : 0 ≤ lc) (v : ℕ → ℚ) :
+    0 ≤ quadForm (m1 * m2 * m3)
+      (penSpec3 m2 m3 la lb lc (penMat m1 ord) (penMat m2 ord) (penMat m3 ord)) v :=
+  penSpec3_psd m1 m2 m3 hm3 la lb lc _ _ _ ha hb hc
+    (fun u => by rw [quadForm_penMat]; exact Finset.sum_nonneg fun r _ => sq_nonneg _)
+    (fun u => by rw [quadForm_penMat]; exact Finset.sum_nonneg fun r _ => sq_nonneg _)
+    (fun u => by rw [quadForm_penMat]; exact Finset.sum_nonneg fun r _ => sq_nonneg _) v
+
 /-- Summary, 2-D: the matrix the code hands to `lstsq`/`pinv` (`bwb_mat + penalty_mat`, assembled by
 the array arithmetic and `_tensor_product_penalties`) is, entry by entry, the normal matrix
 `(B₁⊗B₂) W (B₁⊗B₂)ᵀ + λ₁·D₁ᵀD₁⊗I + λ₂·I⊗D₂ᵀD₂` of the explicit tensor-product penalised weighted
